@@ -1,7 +1,7 @@
 CFG = {
     "lean_targets": ["Norad.Props.C13"],
     "audit": "Norad/Audit/C13.lean",
-    "rule": ("per rule an exhaustive sweep across its boundary, each value sent through FontInfo::validate, Font::save "
+    "rule": ("per rule an exhaustive sweep across its boundary, each value sent through FontInfo::validate, Font::save and Font::save_with_options (default and custom options) "
              "(over an existing directory) and Font::load of a generated fontinfo.plist: the six PostScript lists at every "
              "length 0..17; all 256 subsets of selection bits 0..7; family class 0..16 x 0..17; every two-digit date field "
              "at all 100 values, every position of the date replaced by 13 characters, 18/19/20-byte strings and 19-byte "
